@@ -226,7 +226,8 @@ def gen_set(rng, stream, mult, game, level):
     s = dict(maps=maps, offset=None, sample_start=None, sample_length=None, meta_set={})
     if level == "set" and game == "sm":
         c = rng.random()
-        s["offset"] = R(0) if c < 0.15 else R(gen_time(rng, stream, mult, -3000, 3000))
+        # None = a set built from objects whose file offset was never set (rates without raising since the D04 follow-up)
+        s["offset"] = None if c < 0.1 else (R(0) if c < 0.22 else R(gen_time(rng, stream, mult, -3000, 3000)))
         s["sample_start"] = R(gen_time(rng, stream, mult, 0, 100000))
         s["sample_length"] = R(gen_dur(rng, stream, mult)) if rng.random() < 0.8 else R(10)
         s["meta_set"] = dict(title=rng.choice(["s", "a;b"]), music="m.ogg", selectable=rng.random() < 0.7)
@@ -372,7 +373,7 @@ def corpus():
     c.append(dict(claim="comp", game="osu", level="map", stream="E", a=R(Fr(1, 2)), b=R(3),
                   set=dict(maps=[gen_chart(rng, "E", 3, "osu", empties="none")], offset=None, sample_start=None,
                            sample_length=None, meta_set={})))
-    # StepMania set whose offset was never set (None): the code raises TypeError; outside the proved domain
+    # StepMania set built from objects, file offset never set (None): rates without raising, the offset stays None
     c.append(dict(claim="scale", game="sm", level="set", stream="E", r=R(2),
                   set=dict(maps=[_sm_chart([(0, 1000)], [(0, 120)])], offset=None, sample_start=R(0), sample_length=R(10),
                            meta_set={})))
